@@ -467,6 +467,22 @@ fn sender_receiver_agree(scheme: Scheme, sess_kind: u8, b: u16, e: u16, l: usize
             return Some((format!("C07/sender-block-size/{}", name), format!("{} B={} E={} L={}: block {} has {} source symbols on the wire, reference {}", name, b, e, l, sbn, syms.len(), k)));
         }
     }
+    // the receiver itself: its own partition (block sizes it allocates as blocks come and go) must let it
+    // rebuild the object from the sender's stream
+    {
+        let seq: Vec<(std::time::SystemTime, &[u8])> = rec.pkts.iter().map(|p| (p.0, &p.1[..])).collect();
+        let out = crate::chan::deliver_seq(&seq, recv_config(true), true);
+        if let Some(pm) = out.panic {
+            return Some((format!("C07/panic/{}", panic_sig(&pm)), format!("receiver panicked: {}", pm)));
+        }
+        let content = spec.objs[0].content();
+        if !out.writers.iter().any(|w| w.toi == toi && w.is_complete() && w.data() == content) {
+            return Some((
+                format!("C07/receiver-cannot-rebuild/{}", name),
+                format!("{} B={} E={} L={} (session default kind {}, cenc {}): the sender's clean stream ({} blocks) is not delivered by the receiver; writers {:?}", name, b, e, l, sess_kind, cenc, refp.n, out.writers.iter().map(|w| w.short()).collect::<Vec<_>>()),
+            ));
+        }
+    }
     // the receiver's side, from the object's own packets
     for i in rec.obj_idx(toi) {
         let bytes = &rec.pkts[i].1;
